@@ -64,15 +64,20 @@ pub fn close_position(
     // this should always be a valid operation as calculate_weight will return >= amount
     let weight_to_reduce = calculate_weight(unbonding_duration, to_close_position.amount)?;
 
+    let mut user_weight = ADDRESS_WEIGHT
+        .may_load(deps.storage, info.sender.clone())?
+        .unwrap_or_default();
+    // a position that was expanded was credited piecewise, which (due to rounding) can add up to
+    // less than the weight of the whole position. Never take more weight off the global weight
+    // than is taken off the user, so the global weight remains the sum of the address weights
+    let weight_to_reduce = weight_to_reduce.min(user_weight);
+
     // reduce the global weight
     GLOBAL_WEIGHT.update::<_, StdError>(deps.storage, |global_weight| {
         Ok(global_weight.saturating_sub(weight_to_reduce))
     })?;
 
     // reduce the weight for the user
-    let mut user_weight = ADDRESS_WEIGHT
-        .may_load(deps.storage, info.sender.clone())?
-        .unwrap_or_default();
     user_weight = user_weight.saturating_sub(weight_to_reduce);
     ADDRESS_WEIGHT.save(deps.storage, info.sender.clone(), &user_weight)?;
 
